@@ -24,7 +24,7 @@ ANCHORS = ['penman._parse:_parse_node', 'penman._parse:_parse_edge', 'penman._pa
            'penman._lexer:TokenIterator.peek', 'penman._lexer:TokenIterator.error']
 PROBES = {'C07': 0, 'C08': 40}     # the driver itself decides C07 on every string
 MIN_EVAL = {'quick': 20000, 'thorough': 400000}
-REQUIRED_COUNTERS = ['accepted', 'rejected', 'deep_ok', 'prefixes', 'long_texts']
+REQUIRED_COUNTERS = ['accepted', 'rejected', 'deep_ok', 'prefixes', 'long_texts', 'regex_time_probe']
 ASSUMPTIONS = ['the reference recogniser (pmon/ref/lexer.py) reads docs/notation.rst correctly',
                'regular-expression time inside the lexer is only guarded by the wall-clock watchdog']
 
@@ -81,6 +81,10 @@ def cases(ctx):
         if not ctx.time_left():
             break
         yield 'prefixes', {'i': i}
+    # ---- every unusual character in first position / before the first token
+    if ctx.shard == 0:
+        yield 'firstchar', {}
+        yield 'regex-time', {}
     # ---- long flat texts (hundreds of tokens on few nesting levels) and their truncations
     for i in range(12 if q else 150):
         yield 'long', {'i': i}
@@ -124,6 +128,45 @@ def oracle(ctx, kind, p):
                                                  monitors.stack_depth())
         ctx.notes['recursion_limit_during_code_under_test'] = sys.getrecursionlimit()
         ctx.count('accepted' if acc else 'rejected')
+    elif kind == 'firstchar':
+        for ch in S.UNI + S.ALPHA26:
+            for body in ('(a / b)', 'instance(a, b)', '# ::id 1\n(a / b)', '(a / b)\n(c / d)'):
+                for s in (ch + body, ch + ' ' + body, body + ch, body[:3] + ch + body[3:]):
+                    ctx.current = ['str', {'s': s}]
+                    acc = _text.check_parsers(ctx, s, containers=True)
+                    ctx.case(s, True)
+                    ctx.count('accepted' if acc else 'rejected')
+    elif kind == 'regex-time':
+        # Lexing runs in C inside the regex engine, where the step budget cannot look.  Inputs
+        # built to provoke catastrophic backtracking (unterminated strings followed by runs of
+        # escapes, long alignment lists, long runs of one character) are parsed by a child
+        # interpreter; the whole batch normally takes milliseconds, the limit is 120 s.
+        import subprocess
+        import sys
+        from pmon import core
+        batch = []
+        for n in (10, 20, 30, 40, 60):
+            batch += ['(a :op "' + '\\"' * n, '(a / "' + '\\\\' * n + 'x', '(a / b~e.' + '1,' * n, '(a / b~' + '1' * n + ',',
+                      '(a ' + ':' * n, '#' * n + '(', '(a / ' + '"' * (2 * n + 1), 'r(a, "' + '\\"' * n, '~' * n + 'e.1']
+        code = ('import sys, json, penman\n'
+                'for s in json.load(sys.stdin):\n'
+                '    for f in (penman.parse, lambda x: list(penman.iterparse(x)), penman.parse_triples):\n'
+                '        try: f(s)\n'
+                '        except penman.DecodeError: pass\n'
+                'print("done")\n')
+        import json as _json
+        try:
+            r = subprocess.run([sys.executable, '-B', '-c', code], input=_json.dumps(batch), capture_output=True,
+                               text=True, timeout=120, env=dict(__import__('os').environ, PYTHONPATH=core.REPO))
+            if 'done' not in r.stdout:
+                ctx.fail('regex-time:child-failed', detail={'stderr': r.stderr[-600:]})
+        except subprocess.TimeoutExpired:
+            ctx.fail('termination:lexer-does-not-finish', mech='regex',
+                     detail={'batch_size': len(batch), 'limit_s': 120,
+                             'note': 'short adversarial inputs (<= 130 characters) not parsed within 120 s'},
+                     payload=['regex-time', {}])
+        ctx.count('regex_time_probe', len(batch))
+        ctx.case('regex-time', True)
     elif kind == 'long':
         rng = ctx.rng('long', p['i'])
         nb = rng.choice([20, 21, 31, 32, 33, 63, 64, 65, 100, 127, 128, 129, 200])
@@ -150,12 +193,15 @@ def oracle(ctx, kind, p):
         else:
             # a triple conjunction in one of the documented spacing styles
             comma = rng.choice([',', ', ', ' ,', ' , '])
-            caret = rng.choice(['^', ' ^', ' ^ ', ' ^\n'])
+            carets = ['^', ' ^', ' ^ ', ' ^\n']
             parts = []
-            for _ in range(rng.randrange(1, 4)):
+            for _ in range(rng.randrange(1, 5)):
                 tgt = rng.choice(['b', '"s t"', '7', 'x-01', '', '"q)^("'])
-                parts.append(f"{rng.choice(['instance', 'ARG0', 'mod-of', ':op1'])}({rng.choice(['a', 'x1', 'b.c'])}{comma}{tgt})")
-            s = caret.join(parts)
+                parts.append(f"{rng.choice(['instance', 'ARG0', 'mod-of', ':op1', '^sup', 'a^b'])}({rng.choice(['a', 'x1', 'b.c'])}{comma}{tgt})")
+            s = parts[0]
+            one = rng.choice(carets)
+            for pt in parts[1:]:
+                s += (one if p['i'] % 4 else rng.choice(carets)) + pt
         tails = [s + t for t in (' x', ' (', ' ^', ' ^ ', ')', ' # c', '\n(', ' "q"', ',', ' :r', '~1')]
         for k in range(len(s) + 1 + len(tails)):
             pre = s[:k] if k <= len(s) else tails[k - len(s) - 1]
